@@ -160,12 +160,12 @@ CHECKS["C06"] = {
     "rule": "one case = one prove_with_rng call on a (statement, witness) pair built by the harness to be valid or to break exactly one rule (count, degree, value +-1, one blinding "
             "component, value = 2^n or u64::MAX with a promise that brings the difference back in range, promise = value / value+1 / 2^n-1 / u64::MAX inside mixed Some/None vectors, "
             "errors that cancel across aggregate positions) at the first, middle and last position; non-trivial = the call reached the prover; distinct = distinct (group, configuration, attempt, values, promises)",
-    "require": {"quick": {"prove_calls": 4000, "proofs_emitted": 1000, "refusals": 2500, "emitted_proofs_verified": 1000, "adaptive_opening_attacks": 800},
+    "require": {"quick": {"prove_calls_os_rng": 1200, "prove_calls": 4000, "proofs_emitted": 1000, "refusals": 2500, "emitted_proofs_verified": 1000, "adaptive_opening_attacks": 800},
                 "thorough": {"prove_calls": 60000, "proofs_emitted": 15000, "refusals": 40000, "emitted_proofs_verified": 15000}},
     "assumptions": COMMON_ASSUMPTIONS + ["the validity predicate is the harness's knowledge of which rule it broke when constructing the case"],
     "level_text": "Calls the real prover on thousands of constructed (statement, witness) pairs over the lattice, each either valid (controls and boundary values 2^n-1, value == promise) "
                   "or violating exactly one clause of the witness relation at one aggregate position, including violations that cancel across positions and an adaptive attack that shifts two "
-                  "blindings by scalars the prover itself was observed to draw (transcript generators, challenges, the caller's generator) on an honest run; Ok must coincide with validity, "
+                  "blindings by scalars the prover itself was observed to draw (transcript generators, challenges, the caller's generator) on an honest run; both entry points (`prove_with_rng` and `prove`, which draws from the operating system) must take the same decision; position constants are tried as weights as well, on blindings and values; Ok must coincide with validity, "
                   "errors must be error values (no panic), and every emitted proof must be accepted by the library verifier and the reference verifier.",
     "level_note": "Held on the executed pairs. Trusted: harness case construction, refbp.",
 }
@@ -179,11 +179,11 @@ CHECKS["C07"] = {
     "rule": "prover cases: (instance, position j, promise p in {None, 0, v, v-1, v+1, v/3, 2^n-1, 2^n, 2^n+1, u64::MAX}) inside mixed Some/None vectors, expected Ok iff p <= v; "
             "verifier cases: proof made under vector p, verified under p with one position substituted by each candidate (+ base, base as Some, base+-1), in two verifying modes, "
             "expected accept iff value-wise equal (None == 0); distinct = distinct (group, instance, position, candidate, mode)",
-    "require": {"quick": {"prover_promise_cases": 3000, "verifier_substitutions": 12000, "verifier_valuewise_equal_substitutions": 3000, "verifier_promise_does_not_fit": 2000},
+    "require": {"quick": {"prover_promise_cases_os_rng": 900, "prover_promise_cases": 3000, "verifier_substitutions": 12000, "verifier_valuewise_equal_substitutions": 3000, "verifier_promise_does_not_fit": 2000},
                 "thorough": {"prover_promise_cases": 50000, "verifier_substitutions": 200000, "verifier_valuewise_equal_substitutions": 50000, "verifier_promise_does_not_fit": 30000}},
     "assumptions": COMMON_ASSUMPTIONS + ["the H-scalar half and the transcript half of the promise handling are observed separately by C02 (coefficient of the value generator) and C04 (promise appended before y); this check decides the end-to-end behaviour"],
     "level_text": "Runs the real prover with each boundary promise at each sampled position of mixed promise vectors (accept iff promise <= value) and re-verifies honest proofs under "
-                  "every single-position substitution of the promise vector (accept iff value-wise equal, None == Some(0)); promises that do not fit the bit length must be refused, "
+                  "every single-position substitution of the promise vector (accept iff value-wise equal, None == Some(0)); promises that do not fit the bit length - one, a pair with equal high bits, or all of them - must be refused, the OS-generator entry point must take the prover's decisions too, "
                   "and over the free-module group the monitor confirms the refusal happens before the final check is evaluated.",
     "level_note": "Held on the executed substitutions. Trusted: harness arithmetic oracle (u64 comparisons).",
 }
@@ -197,7 +197,7 @@ CHECKS["C08"] = {
     "rule": "weights leg: one case = one observed verification run of a batch of 2..5 proofs (base run, run after changing one response scalar, or one round of the adaptive attack on a pair (i, j) "
             "and blinding coordinate k); non-trivial = the final multiscalar multiplication was captured and every member's weight identified; round0 legs: one case = one (batch, pair, coordinate) "
             "with defects +delta / -delta; distinct = distinct (batch, pair, coordinate, round / changed scalar)",
-    "require": {"quick": {"batches_observed": 200, "weight_ratios_compared": 3000, "attack_rounds": 10000, "residuals_explained_by_weights": 10000, "equal_opposite_pairs": 1500},
+    "require": {"quick": {"attack_rounds_multi_coordinate": 400, "attack_rounds_with_duplicated_members": 1000, "batches_observed": 200, "weight_ratios_compared": 3000, "attack_rounds": 10000, "residuals_explained_by_weights": 10000, "equal_opposite_pairs": 1500},
                 "thorough": {"batches_observed": 2000, "weight_ratios_compared": 30000, "attack_rounds": 500000, "residuals_explained_by_weights": 500000, "equal_opposite_pairs": 15000}},
     "assumptions": COMMON_ASSUMPTIONS + ["weights are only observable over the free-module group; on Ristretto only the non-adaptive equal-and-opposite attack is run",
                                          "the attack perturbs d1 components (defects that leave all Fiat-Shamir challenges unchanged and contribute exactly w*delta on one blinding-generator coordinate)"],
@@ -205,7 +205,7 @@ CHECKS["C08"] = {
                   "multiplication over the free-module group): every factor is non-zero; the ratio of two proofs' factors changes whenever r1, s1 or any d1 component of either changes; "
                   "and a cancellation attack on every pair and blinding coordinate that recomputes its offsetting defect from the factors observed on the previous run is rejected in every "
                   "round, with the captured residual equal to w_i*delta_i + w_j*delta_j on exactly that coordinate; the attack is repeated on batches in which every proof is submitted twice (identical copies, "
-                  "identical defects, factors of the copies summed), in VerifyOnly and RecoverAndVerify, on public and seeded statements.",
+                  "identical defects, factors of the copies summed) and with joint perturbations of several response scalars (sum-preserving d1 shifts, a two-coordinate cancellation), in VerifyOnly and RecoverAndVerify, on public and seeded statements.",
     "level_note": "Held on the executed runs; an attacker model limited to d1 defects. Trusted: FmPoint MSM log.",
 }
 
@@ -292,14 +292,14 @@ CHECKS["C13"] = {
     "legs": [{"name": "fm", "shards": 16}],
     "rule": "one case = one proof produced by the real prover over the free-module group (lattice configuration x seeded/unseeded x external RNG in {healthy, healthy', two fault models}) whose 2 + d*(3 + 2*rounds) "
             "nonces were all extracted and consistency-checked (B[H] = r*y*s); distinct = distinct (instance, RNG model)",
-    "require": {"quick": {"proofs_inspected": 1500, "nonces_extracted": 40000, "seed_nonces_compared": 4000, "rng_draw_sets_compared": 1500, "seeded_run_pairs": 50},
+    "require": {"quick": {"long_run_proofs": 600, "os_rng_proof_pairs": 70, "proofs_inspected": 1500, "nonces_extracted": 40000, "seed_nonces_compared": 4000, "rng_draw_sets_compared": 1500, "seeded_run_pairs": 50},
                 "thorough": {"proofs_inspected": 15000, "nonces_extracted": 400000, "seed_nonces_compared": 40000, "rng_draw_sets_compared": 15000, "seeded_run_pairs": 800}},
     "assumptions": COMMON_ASSUMPTIONS + ["no Ristretto leg is possible (nonces cannot be read off curve points); the prover is group-generic code, which is what makes the free-module observation representative",
                                          "'unpredictable' is observed as: distinct within a proof, never repeated across differing runs (per shard), equal to the transcript-RNG draws, and (C14) keyed by the witness"],
     "level_text": "Reads every nonce of real proofs (alpha_k, dL_jk, dR_jk, d_k, eta_k from the blinding-generator coordinates of A, L_j, R_j, A1, B; r and s from A1's coordinates on the first vector "
                   "generators and the logged challenges): all non-zero and pairwise distinct within a proof; without a seed the values never repeat across runs and equal, as a set, the scalars drawn from the "
                   "transcript RNG; with a seed the seed-derived ones equal the documented Blake2b derivation exactly (independent implementation) while r and s still come from the RNG and differ between runs; "
-                  "external RNG healthy, all-zero, all-ones, short-period and counter.",
+                  "external RNG healthy, all-zero, all-ones, short-period, counter, and a source whose try_fill_bytes fails while fill_bytes delivers; proofs made through RangeProof::prove (operating system's generator) are read the same way, in pairs and in runs of 120..300 proofs of one statement on one thread, where no RNG-derived nonce may ever repeat.",
     "level_note": "Held on the inspected proofs. Trusted: FmPoint coordinate extraction (self-checked via B[H] = r*y*s), refbp nonce derivation.",
 }
 
@@ -333,13 +333,13 @@ CHECKS["C15"] = {
             "2^255-1, 2^256-1, high bit, 2^252, 0} for degrees 1..6 and 1/2/7 rounds; fuzz: random valid encodings under 8 mutation operators; prover outputs: one per (bits, aggregation) pair of the lattice with rotating degree; "
             "non-trivial = from_bytes ran and its result was compared with the predicate",
     "exhaustive": {"quick": False, "thorough": False},
-    "require": {"quick": {"decodes": 2000000, "accepted_strings": 20000, "reencodes_compared": 20000, "scalar_boundary_cases": 1900, "serde_decodes": 100000, "prover_outputs": 120, "serde_roundtrips": 110, "fuzzed_strings": 200000},
+    "require": {"quick": {"equality_probes": 10000, "long_encoding_cases": 70, "scalar_limb_grid_cases": 20000, "decodes": 2000000, "accepted_strings": 20000, "reencodes_compared": 20000, "scalar_boundary_cases": 1900, "serde_decodes": 100000, "prover_outputs": 120, "serde_roundtrips": 110, "fuzzed_strings": 200000},
                 "thorough": {"decodes": 4000000, "accepted_strings": 100000, "reencodes_compared": 100000, "scalar_boundary_cases": 1900, "serde_decodes": 500000, "prover_outputs": 120, "serde_roundtrips": 110, "fuzzed_strings": 2000000}},
     "assumptions": COMMON_ASSUMPTIONS + ["the (tag, length) sweep is exhaustive up to 1314 bytes (40 elements beyond the largest honest proof) for three fill patterns, not for all contents",
                                          "the serde form is exercised through bincode 1.x (the crate's own dev-dependency)"],
     "level_text": "Runs the real decoder on more than two million byte strings: the complete (first byte x length) grid up to 1314 bytes under three fill patterns, every scalar slot at the canonicity "
                   "boundary of the group order (independent little-endian comparison; interior points of [2^252, l); every combination of {0, l's limb, l's limb +- 1, all ones, random} over the four 64-bit limbs; every single-byte alteration of l and l - 1), random and mutated encodings; acceptance must equal the stated set exactly, every accepted string must re-encode to "
-                  "itself, decoded proofs compare equal exactly when their encodings are equal, and the serde/bincode form must accept and produce exactly the same strings. Every kind of proof the prover outputs over the lattice (up to 64x32) must round-trip with the stated length.",
+                  "itself, encodings with up to 1000 folding rounds (with a dangling element, a stray byte, a byte missing) are classified too, decoded proofs compare equal exactly when their encodings are equal (also across lengths), and the serde/bincode form must accept and produce exactly the same strings. Every kind of proof the prover outputs over the lattice (up to 64x32) must round-trip with the stated length.",
     "level_note": "Known finding (not a false alarm): prover outputs with zero folding rounds are refused by the decoder; listed in known_findings.json.",
 }
 
@@ -358,8 +358,8 @@ CHECKS["C17"] = {
                 "thorough": {"parameter_constructions": 34000, "parameter_sets_built": 110, "statement_constructions": 1300, "witness_constructions": 3000, "mask_and_commit_constructions": 108, "degree_conversions": 600}},
     "assumptions": COMMON_ASSUMPTIONS + ["the 'documented domain' is the one in the property statement; the enumeration is complete for the stated finite ranges, larger arguments are sampled only around powers of two",
                                          "quick skips building real Ristretto tables for the valid parameter sets with capacity 64 and 128 (thorough builds them)"],
-    "level_text": "Calls every validating constructor on its whole stated finite input space (17 161 (bits, capacity) pairs per group, every statement / witness / mask / commitment shape, every u8 and the listed usize values), "
-                  "each under catch_unwind: Ok must coincide with an independently written predicate of the documented domain, and whenever a constructor succeeds the accessors must return exactly what was requested.",
+    "level_text": "Calls every validating constructor on its whole stated finite input space (17 161 (bits, capacity) pairs per group plus capacities 255..4096 and 65535, every statement / witness / mask / commitment shape, every u8 and the listed usize values), "
+                  "also `commit` on a generator set holding more blinding generators than its declared degree, each under catch_unwind: Ok must coincide with an independently written predicate of the documented domain, and whenever a constructor succeeds the accessors must return exactly what was requested.",
     "level_note": "Finite space enumerated completely (exhaustive for the stated bounds). Trusted: the harness's domain predicates.",
 }
 
@@ -384,7 +384,7 @@ CHECKS["C16"] = {
     "deadline_s": {"quick": 1500, "thorough": 10000},
     "assumptions": COMMON_ASSUMPTIONS + ["'time proportional to the input size' is decided on logical steps (scalar x coordinate multiplications over the free-module group) and on allocation sizes, with linear bounds and generous constants; the wall-clock watchdog only yields INCONCLUSIVE",
                                          "statements are built through the validating constructors; Pedersen generator fields are not tampered with here"],
-    "level_text": "Feeds the real decoder and verifier tens of thousands of hostile inputs inside child processes (checked build with overflow checks and debug assertions, and the plain release build; Ristretto for the real backend "
+    "level_text": "Feeds the real decoder and verifier tens of thousands of hostile inputs inside child processes (checked build - overflow checks in every crate, since the library's generic code is code-generated in the harness crate, and debug assertions in the library - and the plain release build; Ristretto for the real backend "
                   "assertions, free-module group for step counting): no panic (catch_unwind), no abnormal process exit (abort, stack overflow, allocation failure), largest single allocation and peak live bytes within a linear "
                   "bound of input size and table size, logical steps within a linear bound; hostile statements include unrelated points, identity commitments (one or all) and repeated commitments against honest proofs. Thorough repeats the Ristretto workload under AddressSanitizer.",
     "level_note": "Held on the executed inputs. A clean sanitizer run is not memory safety; the library has no unsafe code of its own, the sanitizer leg covers the dependencies' unsafe reached from hostile input.",
@@ -454,7 +454,7 @@ CHECKS["C20"] = {
     "rule": "one case = one armed window around a library call or a drop: prove (seeded / unseeded, degree 1..6, aggregation 1..4, 64-bit high-entropy values), a prove call refused half-way, verify in both recovering modes on success and "
             "on two failure paths (final check fails after recovery; a later batch member is refused), drop of returned masks, drop and clone+drop of CommitmentOpening, RangeWitness, ExtendedMask, Vec / Box / clone of a seeded RangeStatement; plus "
             "the in-place statement scan; non-trivial = at least one block was released and scanned in the window; distinct = distinct (instance, window, build)",
-    "require": {"quick": {"windows": 2500, "blocks_scanned": 150000, "window_prove": 300, "window_verify": 500, "window_drop": 1500, "inline_seed_scans": 80, "scanner_selftests": 48},
+    "require": {"quick": {"window_compare": 90, "window_CommitmentOpening::clone_from": 90, "window_RangeWitness::clone_from": 180, "windows": 2500, "blocks_scanned": 150000, "window_prove": 300, "window_verify": 500, "window_drop": 1500, "inline_seed_scans": 80, "scanner_selftests": 48},
                 "thorough": {"windows": 25000, "blocks_scanned": 1500000, "window_prove": 3000, "window_verify": 5000, "window_drop": 15000, "inline_seed_scans": 800, "scanner_selftests": 48}},
     "assumptions": COMMON_ASSUMPTIONS + ["decides on literal encodings of the four secret kinds the property names (LE64 value - only 64-bit high-entropy values are registered -, 32-byte blinding factor, seed, mask component); buffers merely derived from secrets (NAF / radix-16 digits, offset bit vectors, seed-derived nonces) are diagnostics, not verdicts",
                                          "realloc is made to move always (a conforming allocator may), so a grown buffer's old block is always inspected; blocks are wiped after scanning and the harness wipes every block it releases itself, so stale bytes cannot resurface in uninitialised slack",
